@@ -208,6 +208,30 @@ def run_witness(binpath, w):
                     failing.append(prog)
             return {"cmd": "reftest-json-session <%d programs, plain and interrupted>" % len(w["input"]), "exit": 0, "stdout": "", "stderr": "",
                     "reproduced": bool(bad_items), "why": "; ".join(bad_items[:4])[:1500], "n_inputs": len(w["input"]), "failing_inputs": failing[:4]}
+        elif kind == "frontend-nopanic":
+            # a list of program texts: `garden check`, `garden format` and `garden reftest-ast` on each must end without
+            # a panic, a crash by signal or a timeout (whatever diagnostics they print)
+            from concurrent.futures import ThreadPoolExecutor
+            items = w["input"]
+            cmds = w.get("commands", ["check", "format", "reftest-ast"])
+
+            def one(i):
+                f = os.path.join(tmpdir, "f%d.gdn" % i)
+                open(f, "w", encoding="utf-8").write(items[i])
+                for c in cmds:
+                    try:
+                        p = subprocess.run([binpath, c, f], capture_output=True, text=True, timeout=30, cwd=tmpdir, stdin=subprocess.DEVNULL, errors="replace")
+                    except subprocess.TimeoutExpired:
+                        return "`%s` timed out on %r" % (c, items[i][:80])
+                    if p.returncode == 101 or p.returncode < 0 or "panicked at" in p.stderr:
+                        return "`%s` crashed on %r: %s" % (c, items[i][:80], (p.stderr.strip().splitlines() or ["status %d" % p.returncode])[0][:140])
+                return None
+            with ThreadPoolExecutor(max_workers=12) as ex:
+                res = list(ex.map(one, range(len(items))))
+            bad_items = [r for r in res if r]
+            return {"cmd": "%s <%d programs>" % ("/".join(cmds), len(items)), "exit": 0, "stdout": "", "stderr": "",
+                    "reproduced": bool(bad_items), "why": "; ".join(bad_items[:5])[:1500], "n_inputs": len(items),
+                    "failing_inputs": [items[i] for i, r in enumerate(res) if r][:6]}
         elif kind == "check-matrix":
             # a list of small programs, each with the verdict `garden check` must give
             # (expect_error: True = at least one error diagnostic, False = none)
